@@ -10,8 +10,9 @@
 (*         symbols, error name)                                            *)
 (*  Exploration level: TLC enumerates every history of at most MaxSteps    *)
 (*  operations; the expected results are the states' `res`.                *)
-(* Not modelled (and not judged): seeking inside write/append handles,     *)
-(* reading from write-only handles, tell() right after opening for append. *)
+(* Not modelled (and not judged): overwriting in the middle through a      *)
+(* write handle that was moved back, reading from write-only handles,      *)
+(* tell() on append handles.                                               *)
 (***************************************************************************)
 EXTENDS Naturals, Sequences
 CONSTANTS Syms, MaxContent, MaxSteps, Chunks
@@ -41,6 +42,7 @@ Open(m) == /\ Tick /\ m \in ReadModes \cup WriteModes \cup AppendModes
 Close == /\ Tick /\ mode # "closed" /\ mode' = "closed" /\ pos' = 0 /\ res' = R("ok", 0, <<>>, "") /\ UNCHANGED <<kind, content>>
 \* write(chunk): write and append handles only ever add at the end here
 Write(c) == /\ Tick /\ mode \in WriteModes \cup AppendModes /\ c \in Chunks
+            /\ (mode \in AppendModes \/ pos = Len(Content))   \* an append handle writes at the end wherever it stands; overwriting in the middle is not modelled
             /\ Len(Content) + Len(c) <= MaxContent
             /\ content' = Content \o c /\ pos' = Len(Content) + Len(c)
             /\ res' = R("count", Len(c), <<>>, "") /\ UNCHANGED <<kind, mode>>
@@ -54,9 +56,10 @@ ReadBuf(n) == /\ Tick /\ mode \in ReadModes /\ n \in 0..(MaxContent + 1)
               /\ LET k == Min(n, Len(Content) - pos) IN
                  /\ res' = R("bytes", k, SubSeq(Content, pos + 1, pos + k), "") /\ pos' = pos + k
               /\ UNCHANGED <<kind, content, mode>>
-SeekStart(o) == /\ Tick /\ mode \in ReadModes /\ o \in 0..Len(Content)
+\* seek() moves the position of any handle (on an append handle it does not move where writes go)
+SeekStart(o) == /\ Tick /\ mode # "closed" /\ o \in 0..Len(Content)
                 /\ pos' = o /\ res' = R("ok", 0, <<>>, "") /\ UNCHANGED <<kind, content, mode>>
-SeekEnd == /\ Tick /\ mode \in ReadModes /\ pos' = Len(Content) /\ res' = R("ok", 0, <<>>, "") /\ UNCHANGED <<kind, content, mode>>
+SeekEnd == /\ Tick /\ mode # "closed" /\ pos' = Len(Content) /\ res' = R("ok", 0, <<>>, "") /\ UNCHANGED <<kind, content, mode>>
 Tell == /\ Tick /\ mode \in ReadModes \cup WriteModes /\ res' = R("pos", pos, <<>>, "") /\ UNCHANGED <<kind, content, mode, pos>>
 \* size() = number of bytes in the file, position unchanged
 Size == /\ Tick /\ mode # "closed" /\ res' = R("size", Len(Content), <<>>, "") /\ UNCHANGED <<kind, content, mode, pos>>
